@@ -26,7 +26,7 @@ MENUS = collections.OrderedDict([
     ('byminute', [0, (15, 45), 59]),
     ('bysecond', [0, (10, 50), 59]),
     ('term', [('count', 1), ('count', 7), ('until', 'occ'), ('until', 'occ-1s'), ('until', 'date')]),
-    ('kind', ['date', 'utc', 'tzfile']),
+    ('kind', ['date', 'utc', 'tzfile', 'micro']),
 ])
 
 STARTS = [D.datetime(1997, 9, 2, 9, 0, 0),        # the suite's start (Tuesday)
@@ -75,6 +75,8 @@ def start_value(case):
         return st.date()
     if kind == 'utc':
         return st.replace(tzinfo=zones.build(('utc',)))
+    if kind == 'micro':
+        return st.replace(microsecond=999999)      # sub-second part of the start must not survive (whole-second resolution)
     if kind == 'tzfile':
         z = zones.build(('gettz', TZFILE_NAME))
         if z is None:
